@@ -331,8 +331,23 @@ def mass_formula_text(max_tokens=4, fractional=False):
 
 
 @lru_cache(None)
+def _gly_names():
+    """the ten common names (drawn more often) and every other bundled monosaccharide name or synonym made of letters and digits
+    (with counts 1..4 and no name twice, longest-name-first is the only reading of what is written)"""
+    from pv import obo
+    rest = []
+    for e in obo.monosaccharides():
+        for nm in [e['name']] + list(e['synonyms']):
+            if nm.isalnum() and nm not in _GLY and nm not in rest:
+                rest.append(nm)
+    return list(_GLY), sorted(rest)
+
+
+@lru_cache(None)
 def mass_glycan_text():
-    item = st.tuples(st.sampled_from(_GLY), st.integers(1, 4)).map(lambda t: f'{t[0]}{t[1]}')
+    common, rest = _gly_names()
+    name = st.one_of(st.sampled_from(common), st.sampled_from(common + rest))
+    item = st.tuples(name, st.integers(1, 4)).map(lambda t: f'{t[0]}{t[1]}')
     return st.lists(item, min_size=1, max_size=3, unique_by=lambda s: s.rstrip('0123456789')).map(lambda xs: 'Glycan:' + ''.join(xs))
 
 
